@@ -1,5 +1,5 @@
 """Correspondence for the source-to-Lean translator (gen/py2lean.py) and its run-time library (lean/Asn1/PyLite.lean):
-the *translation* of a function (driver ops KTAG, KLEN, KTOBYTES, KOIDENC, KOIDDEC, KTIME, KREAL, KREALDEC, KDECLEN, KDECTAG, KOCTCHUNK, KSETOF, KCERBOOLENC, KWREAD, KWMARK, KREADTURN, KEOSTURN, PYBIO, KCRANGE, KCSIZE, KCSINGLE, KCALPHA, KCERBOOL, KWRAP, KINTDEC; PYFROMBYTES) and the function itself in /repo are
+the *translation* of a function (driver ops KTAG, KLEN, KTOBYTES, KOIDENC, KOIDDEC, KTIME, KREAL, KREALDEC, KDECLEN, KDECTAG, KOCTCHUNK, KSETOF, KCERBOOLENC, KBERBOOLENC, KINTENC, KWREAD, KWMARK, KREADTURN, KEOSTURN, PYBIO, KCRANGE, KCSIZE, KCSINGLE, KCALPHA, KCERBOOL, KWRAP, KINTDEC; PYFROMBYTES) and the function itself in /repo are
 run on the same arguments; the Python builtins PyLite transcribes (PYOP) are compared with CPython.
 
 A disagreement means the translator or PyLite misrepresents the code (machinery fault to repair) - it is reported as a
@@ -146,6 +146,19 @@ def check(rep, drv, seed, n=400, which=('encodeTag', 'encodeLength', 'toBytes', 
             ln = rng.choice([0, 0, 0, 1, 8, 9, 16, 17, 64])
             impl = _py(lambda: list(integer.to_bytes(v, signed=signed, length=ln)))
             cmp_('toBytes', 'KTOBYTES %d %d %d' % (v, 1 if signed else 0, ln), impl)
+    if 'toBytes' in which:
+        # IntegerEncoder.encodeValue around it (zero as one 00 octet, or nothing for a class that asks for the compact form)
+        for compact in (False, True):
+            ie_ = benc.IntegerEncoder()
+            ie_.supportCompactZero = compact
+            for _ in range(max(10, n // 4)):
+                z = rng.choice([0, 0, 1, -1, 127, 128, -128, -129, rnd_int()])
+                r_ = ie_.encodeValue(univ.Integer(z), None, None)
+                nonlocal_done[0] += 1
+                rep.corr_checked += 1
+                ans = drv.ask('KINTENC %d %d' % (compact, z)).replace('true', '1').replace('false', '0').replace('|', '')
+                if _ints(ans) != ('ok', list(r_[0]) + [int(r_[1]), int(r_[2])]):
+                    rep.disagree('KERNEL:intEncode', 'KINTENC %d %d' % (compact, z), ans[:200], repr(r_)[:200])
     if 'oidEncode' in which:
         oenc = benc.ObjectIdentifierEncoder()
         for _ in range(n):
